@@ -48,7 +48,7 @@ func zzScoreOf(cg *connectionGater, ip string) int {
 //zz:opt loop=4000
 //zz:opt require=end,penalised,clean
 //zz:stub time.Now zzStubNow
-//zz:quick K=4
+//zz:quick K=5
 //zz:thorough K=6
 func zzH_C18_ratelimit_counts(t *zzT) {
 	K := t.Param("K", 4)
